@@ -23,5 +23,9 @@ func VerifConstants() map[string]string {
 	put("authRFC1929Ver", authRFC1929Ver)
 	put("authRFC1929Success", authRFC1929Success)
 	put("authRFC1929Fail", authRFC1929Fail)
+	put("ReplySucceeded", int(ReplySucceeded))
+	put("ReplyGeneralFailure", int(ReplyGeneralFailure))
+	put("ReplyCommandNotSupported", int(ReplyCommandNotSupported))
+	put("ReplyAddressNotSupported", int(ReplyAddressNotSupported))
 	return m
 }
